@@ -118,8 +118,90 @@ def downscale_local_mean(image, factors, cval=0, clip=True):
     return LArray(oshape, g, "float64")
 
 
+def affine_transform(input, matrix, offset=0.0, output_shape=None, output=None, order=3, mode="constant", cval=0.0, prefilter=True):
+    """scipy.ndimage.affine_transform: out[o] = in[M o + t] (homogeneous matrix).  Exact when M is a signed permutation
+    with integer translation on the evaluated case (no interpolation happens at integer source positions); otherwise an
+    opaque operator that is a function of (input content, matrix content)."""
+    if not isinstance(input, LArray):
+        import scipy.ndimage
+        from . import npx
+        return scipy.ndimage.affine_transform(input, npx._demote(_np.asarray(matrix, dtype=object)) if isinstance(matrix, _np.ndarray) and matrix.dtype == object else matrix,
+                                              offset=offset, output_shape=output_shape, output=output, order=order, mode=mode, cval=cval, prefilter=prefilter)
+    M = _np.asarray(matrix, dtype=object)
+    nd = input.ndim
+    if M.shape != (nd + 1, nd + 1):
+        raise Unsupported("affine_transform matrix shape %s" % (M.shape,))
+    lin = [[M[i, j] for j in range(nd)] for i in range(nd)]
+    tr = [M[i, nd] for i in range(nd)]
+    integral = True
+    for row in lin:
+        for v in row:
+            if core.is_sym(v):
+                vs = z3.simplify(core.zreal(v))
+                if not (z3.is_rational_value(vs) and vs.denominator_as_long() == 1):
+                    integral = False
+            elif float(v) != round(float(v)):
+                integral = False
+    shape = input.shape if output is None else output.shape
+    sf, ss = input.fn, input.shape
+    if integral and mode == "constant":
+        L = [[int(round(_cval(v))) for v in row] for row in lin]
+
+        def fn(idx):
+            src = []
+            for i in range(nd):
+                acc = tr[i]
+                for j in range(nd):
+                    if L[i][j] != 0:
+                        acc = acc + L[i][j] * idx[j]
+                src.append(acc)
+            src = [_int_index(v) for v in src]
+            inb = larray.s_and(*[larray.s_and(v >= 0, v < n) for v, n in zip(src, ss)])
+            if inb is True:
+                return sf(tuple(larray.as_index(v) for v in src))
+            if inb is False:
+                return cval
+            return larray.s_ite(inb, sf(tuple(larray.as_index(v) for v in src)), cval)
+        res_fn = fn
+    else:
+        import hashlib
+        mkey = hashlib.sha256("|".join(canon(z3.simplify(core.zreal(v))) if core.is_sym(v) else repr(float(v)) for v in M.flat).encode()).hexdigest()[:12]
+        f = z3.Function("affine_%s_%s_o%d" % (content_key(input), mkey, order), *([z3.IntSort()] * nd + [z3.RealSort()]))
+        res_fn = lambda idx: SNum(f(*[zterm(i) if core.is_sym(i) else z3.IntVal(int(i)) for i in idx]))
+    if output is not None:
+        if not isinstance(output, LArray):
+            raise Unsupported("affine_transform into a concrete output array from a lazy input")
+        output._set(res_fn)
+        return None
+    return LArray(shape, res_fn, input.dtype_tag)
+
+
+def _cval(v):
+    if core.is_sym(v):
+        t = z3.simplify(core.zreal(v))
+        return t.numerator_as_long() / t.denominator_as_long()
+    return float(v)
+
+
+def _int_index(v):
+    """translation terms are real-sorted integers (e.g. N//2 stored in a float matrix): bring them back to Int"""
+    if isint(v):
+        return int(v)
+    if isinstance(v, (float, _np.floating)):
+        if float(v).is_integer():
+            return int(v)
+        raise Unsupported("non-integral source index")
+    e = z3.simplify(core.zterm(v))
+    if z3.is_int(e):
+        return larray.as_index(SNum(e))
+    from . import casts
+    if casts._is_int_term(e):
+        return larray.as_index(SNum(z3.simplify(z3.ToInt(e))))
+    raise Unsupported("non-integral symbolic source index")
+
+
 def substitute(short, g):
-    import skimage.filters, numpy.fft, skimage.transform
+    import skimage.filters, numpy.fft, skimage.transform, scipy.ndimage
     subs = []
     for name, val in list(g.items()):
         if val is skimage.filters:
@@ -128,6 +210,8 @@ def substitute(short, g):
             g[name] = FFT; subs.append(name)
         elif val is skimage.transform.downscale_local_mean:
             g[name] = downscale_local_mean; subs.append(name)
+        elif val is scipy.ndimage.affine_transform:
+            g[name] = affine_transform; subs.append(name)
     return subs
 
 
